@@ -15,10 +15,13 @@
   and a hint is < 0x80) and `columns_units_needs_ascii` shows the hypothesis cannot be dropped. The check tests
   `AsciiBeforeHints` on every emitted file.
 
-  Known defect (transcribed as it is, see `offset_js_counterexample`): `defaultJSMappingCallback` compares the
-  1-based generated line of a decoded mapping with 0, so the column shift for the first line is never applied.
+  Repaired in round 2 (patches fixes/C19-*.patch; the model mirrors the repaired code): the first-line column shift of
+  JS mappings (`offset_js` is now full strength; the old scheme is kept under "repaired defects"), the position of `if`
+  statements, the misspelt prelude file name. Still recorded: switch-tag evaluation and the call of a function literal are
+  written under a pending `token.NoPos`; `every_setpos_reported_counterexample` is the buffer-level mechanism.
 -/
 import GV.Proofs.SrcMap
+import GV.Props.C16
 
 namespace GV.Props.C19
 open GV.SrcMap GV.Proofs.SrcMap
@@ -260,39 +263,29 @@ def offsetJSSpec (st : St) (m : JSMapping) : JSMapping :=
   let p := placeAt (st.line + 1, st.column) (m.genLine, m.genColumn)
   { m with genLine := p.1, genColumn := p.2 }
 
-/-- full-strength statement (NOT claimed: false of the code as it is) -/
-def offset_js_full : Prop := ∀ (st : St) (m : JSMapping), 1 ≤ m.genLine → offsetJS st m = offsetJSSpec st m
-
-/-- witness: a mapping on the first line of an isolated JS file written at column 12 keeps its column -/
-theorem offset_js_counterexample : ¬ offset_js_full := by
-  intro h
-  have := h ⟨1, 12⟩ ⟨1, 0, "helper.inc.js:1:0"⟩ (by decide)
-  revert this
-  decide
-
-/-- `offset_js` (partial): the offsetting is right for every mapping that is not on the first line of the isolated
-    file, and for all mappings when the JS text starts at column 0 (the situation of the prelude and of .inc.js
-    files in non-minified builds). -/
-theorem offset_js_partial (st : St) (m : JSMapping) (h1 : 1 ≤ m.genLine) (h : st.column = 0 ∨ m.genLine ≠ 1) :
-    offsetJS st m = offsetJSSpec st m := by
-  have hne : m.genLine ≠ 0 := by omega
+/-- `offset_js` (full strength since the repair C19-js-first-line-column): every mapping of an isolated JS file
+    (generated lines are 1-based) is moved to where its text really is: lines shift by the current line, and on the
+    first line only the column shifts by the current column. -/
+theorem offset_js (st : St) (m : JSMapping) (h1 : 1 ≤ m.genLine) : offsetJS st m = offsetJSSpec st m := by
   cases m with
   | mk l c o =>
     simp only [offsetJS, offsetJSSpec, placeAt] at *
-    simp only [hne, if_false]
-    rcases h with h | h
-    · by_cases hl : l = 1
-      · simp [hl, h]; omega
-      · simp [hl]; omega
-    · simp [h]; omega
+    by_cases hl : l = 1
+    · simp [hl]; omega
+    · simp [hl]; omega
 
-example : ∃ st m, 1 ≤ m.genLine ∧ (st.column = 0 ∨ m.genLine ≠ 1) ∧ st.line = 7 ∧ (offsetJS st m).genLine = 10 :=
-  ⟨⟨7, 0⟩, ⟨3, 4, "x"⟩, by decide, by decide, rfl, rfl⟩
+example : offsetJS ⟨1, 12⟩ ⟨1, 0, "helper.inc.js:1:0"⟩ = ⟨2, 12, "helper.inc.js:1:0"⟩ := rfl
+example : offsetJS ⟨7, 12⟩ ⟨3, 4, "x"⟩ = ⟨10, 4, "x"⟩ := rfl
 
-/-- the line part of the offsetting is always right -/
-theorem offset_js_line (st : St) (m : JSMapping) :
-    (offsetJS st m).genLine = (offsetJSSpec st m).genLine := by
-  simp only [offsetJS, offsetJSSpec, placeAt]; omega
+/-- end to end: a JS text `js` written after output `pre`; an isolated mapping that points at the byte at offset `k` of
+    `js` is moved by `offsetJS` to the position of that byte in `pre ++ js`. -/
+theorem offset_js_points_at_text (pre js : Bytes) (k : Nat) (orig : String) :
+    offsetJS (stOf pre) ⟨(posOf (js.take k)).1, (posOf (js.take k)).2, orig⟩ =
+      ⟨(posOf (pre ++ js.take k)).1, (posOf (pre ++ js.take k)).2, orig⟩ := by
+  rw [offset_js _ _ (by simp [posOf]), placeAt_correct]
+  simp only [offsetJSSpec, stOf, placeAt, posOf]
+  congr 1
+  omega
 
 /-! ### the pending position of a function context (compiler/utils.go:44-118) -/
 
@@ -319,8 +312,11 @@ def every_setpos_reported : Prop :=
   ∀ (pack : Nat → Bytes) (c : Ctx) (p q : Nat) (b : Bytes),
     ∃ pre post, (((c.setPos p).setPos q).write pack b).output = pre ++ enc (pack p) ++ post
 
-/-- witness: a second `SetPos` before any output replaces the first (this is how `if` statements lose their position:
-    translateStmt sets it, translateBranchingStmt sets `clause.Pos()` = NoPos of the synthetic clause right after). -/
+/-- witness: a second `SetPos` before any output replaces the first. `SetPos` is unchanged by the round-2 repairs, so this
+    stays true of the code: it is how the evaluation of a `switch` tag still loses its position (translateStmt sets the
+    position of the switch, the synthetic assignment `_1 := tag` sets `token.NoPos` right after), and it was how `if`
+    statements lost theirs before the repair C19-if-stmt-nopos gave the synthetic clause the position of its `if`.
+    What does hold is `alternating_positions_reported` / `stmts_all_mapped` below. -/
 theorem every_setpos_reported_counterexample : ¬ every_setpos_reported := by
   intro h
   obtain ⟨pre, post, h⟩ := h (fun n => [n]) Ctx.empty 1 0 []
@@ -383,5 +379,246 @@ theorem stmt_position_exact (pack : Nat → Bytes) (c : Ctx) (items : List Item)
   simp only [hr]
   rw [init_is_empty, write_render' _ wf2, modelMaps_stOf, hm]
   simp [codeBytes_append, codeBytes, toMapping]
+
+
+/-- positions set alternately with output are ALL reported: a script `SetPos p₁; Write b₁; SetPos p₂; Write b₂; …`
+    leaves `hint p₁, b₁, hint p₂, b₂, …` in the buffer and nothing pending. -/
+def runPairs (pack : Nat → Bytes) (c : Ctx) : List (Nat × Bytes) → Ctx
+  | [] => c
+  | (p, b) :: tl => runPairs pack ((c.setPos p).write pack b) tl
+
+def pairItems (pack : Nat → Bytes) : List (Nat × Bytes) → List Item
+  | [] => []
+  | (p, b) :: tl => .hint (pack p) :: .code b :: pairItems pack tl
+
+theorem alternating_positions_reported (pack : Nat → Bytes) (c : Ctx) (l : List (Nat × Bytes)) :
+    (runPairs pack c l).output = c.output ++ render (pairItems pack l) ∧
+    ((runPairs pack c l).posAvail = true → l = [] ∧ c.posAvail = true) := by
+  induction l generalizing c with
+  | nil => simp [runPairs, pairItems, render]
+  | cons x tl ih =>
+    obtain ⟨p, b⟩ := x
+    obtain ⟨h1, h2⟩ := ih ((c.setPos p).write pack b)
+    have hw := pending_flushed_by_write pack c p b
+    refine ⟨?_, ?_⟩
+    · simp only [runPairs, h1, hw.1, pairItems, render, List.append_assoc]
+    · intro h
+      have := (h2 h).2
+      rw [hw.2] at this
+      cases this
+
+/-- … and, through the filter: one mapping per statement, each at the position where that statement's bytes start
+    in the filtered output. -/
+theorem stmts_all_mapped (pack : Nat → Bytes) (l : List (Nat × Bytes))
+    (hp : ∀ x ∈ l, (pack x.1).length ≤ 0xFFFF) (hb : ∀ x ∈ l, ∀ b ∈ x.2, b ≠ magic) :
+    (write init (runPairs pack Ctx.empty l).output).maps = (mappings [] (pairItems pack l)).map toMapping ∧
+    (write init (runPairs pack Ctx.empty l).output).maps.length = l.length := by
+  have wf : WFs (pairItems pack l) := by
+    induction l with
+    | nil => intro it hit; simp [pairItems] at hit
+    | cons x tl ih =>
+      obtain ⟨p, b⟩ := x
+      intro it hit
+      simp only [pairItems, List.mem_cons] at hit
+      rcases hit with rfl | rfl | hit
+      · exact hp (p, b) (by simp)
+      · exact hb (p, b) (by simp)
+      · exact ih (fun y hy => hp y (by simp [hy])) (fun y hy => hb y (by simp [hy])) it hit
+  have hout := (alternating_positions_reported pack Ctx.empty l).1
+  simp only [Ctx.empty, List.nil_append] at hout
+  have hout' : (runPairs pack Ctx.empty l).output = render (pairItems pack l) := hout
+  rw [hout', init_is_empty, write_render' _ wf, modelMaps_stOf]
+  refine ⟨rfl, ?_⟩
+  rw [← modelMaps_stOf, modelMaps_length]
+  clear wf hout hout' hp hb
+  induction l with
+  | nil => rfl
+  | cons x tl ih => obtain ⟨p, b⟩ := x; simp [pairItems, hintCount, ih]
+
+/-! ### minified code: `removeWhitespace` keeps the mappings (bridge to C16)
+
+  C16 proves (`GV.Props.C16.rw_items`, `rw_hints`, `rw_total`) that on every well-formed item sequence the byte-level
+  scanner `removeWhitespace` is the item-level algorithm `rwItems`, which copies hints untouched and in order. Here that
+  result is carried through the hint filter: the filter reports the same payload sequence for the minified bytes as for
+  the original bytes. Hypothesis `Bridge`: the magic byte occurs only in hints (not inside string literals or comments)
+  and the two size bytes of a hint are bytes. -/
+
+/-- an item of C16's lexical model as an item of the hint stream -/
+def toSrc : GV.JsTokens.Item → Item
+  | .hint bs => .hint (bs.drop 3)
+  | it => .code it.bytes
+
+/-- no 0x08 outside hints; hint header bytes are bytes -/
+def Bridge : GV.JsTokens.Item → Prop
+  | .hint bs => ∃ hi lo payload, bs = 8 :: hi :: lo :: payload ∧ payload.length = hi * 256 + lo ∧ lo < 256 ∧ hi < 256
+  | it => ∀ b ∈ it.bytes, b ≠ magic
+
+theorem render_toSrc (its : List GV.JsTokens.Item) (hb : ∀ it ∈ its, Bridge it) :
+    render (its.map toSrc) = GV.JsTokens.flatten its ∧ WFs (its.map toSrc) ∧
+    (modelMaps init (its.map toSrc)).map (·.payload) = (GV.JsTokens.hintsOf its).map (·.drop 3) := by
+  suffices h : ∀ st, render (its.map toSrc) = GV.JsTokens.flatten its ∧ WFs (its.map toSrc) ∧
+      (modelMaps st (its.map toSrc)).map (·.payload) = (GV.JsTokens.hintsOf its).map (·.drop 3) from h init
+  induction its with
+  | nil => intro st; exact ⟨rfl, fun it hit => by simp at hit, rfl⟩
+  | cons it tl ih =>
+    intro st
+    have htl : ∀ x ∈ tl, Bridge x := fun x hx => hb x (by simp [hx])
+    have hit := hb it (by simp)
+    cases it with
+    | hint bs =>
+      obtain ⟨hi, lo, payload, rfl, hlen, hlo, hhi⟩ := hit
+      obtain ⟨r1, r2, r3⟩ := ih htl st
+      have e1 : payload.length / 256 = hi := by omega
+      have e2 : payload.length % 256 = lo := by omega
+      refine ⟨?_, ?_, ?_⟩
+      · simp [toSrc, render, enc, GV.JsTokens.flatten, GV.JsTokens.Item.bytes, r1, e1, e2, magic]
+      · intro x hx
+        simp only [List.map_cons, List.mem_cons, toSrc] at hx
+        rcases hx with rfl | hx
+        · show (List.drop 3 (8 :: hi :: lo :: payload)).length ≤ 0xFFFF
+          simp; omega
+        · exact r2 x hx
+      · simp [toSrc, modelMaps, GV.JsTokens.hintsOf, r3]
+    | ws c =>
+      obtain ⟨r1, r2, r3⟩ := ih htl (advance st (GV.JsTokens.Item.ws c).bytes)
+      exact ⟨by simp [toSrc, render, GV.JsTokens.flatten, r1],
+        fun x hx => by
+          simp only [List.map_cons, List.mem_cons, toSrc] at hx
+          rcases hx with rfl | hx
+          · exact hit
+          · exact r2 x hx,
+        by simp [toSrc, modelMaps, GV.JsTokens.hintsOf, r3]⟩
+    | comment body =>
+      obtain ⟨r1, r2, r3⟩ := ih htl (advance st (GV.JsTokens.Item.comment body).bytes)
+      exact ⟨by simp [toSrc, render, GV.JsTokens.flatten, r1],
+        fun x hx => by
+          simp only [List.map_cons, List.mem_cons, toSrc] at hx
+          rcases hx with rfl | hx
+          · exact hit
+          · exact r2 x hx,
+        by simp [toSrc, modelMaps, GV.JsTokens.hintsOf, r3]⟩
+    | str body =>
+      obtain ⟨r1, r2, r3⟩ := ih htl (advance st (GV.JsTokens.Item.str body).bytes)
+      exact ⟨by simp [toSrc, render, GV.JsTokens.flatten, r1],
+        fun x hx => by
+          simp only [List.map_cons, List.mem_cons, toSrc] at hx
+          rcases hx with rfl | hx
+          · exact hit
+          · exact r2 x hx,
+        by simp [toSrc, modelMaps, GV.JsTokens.hintsOf, r3]⟩
+    | ch c =>
+      obtain ⟨r1, r2, r3⟩ := ih htl (advance st (GV.JsTokens.Item.ch c).bytes)
+      exact ⟨by simp [toSrc, render, GV.JsTokens.flatten, r1],
+        fun x hx => by
+          simp only [List.map_cons, List.mem_cons, toSrc] at hx
+          rcases hx with rfl | hx
+          · exact hit
+          · exact r2 x hx,
+        by simp [toSrc, modelMaps, GV.JsTokens.hintsOf, r3]⟩
+
+/-- the item-level algorithm only drops items and keeps the hints in order -/
+theorem rwItems_sub : ∀ (its : List GV.JsTokens.Item) (prev : Nat) (o : List GV.JsTokens.Item),
+    GV.JsTokens.rwItems prev its = some o →
+    (∀ it ∈ o, it ∈ its) ∧ GV.JsTokens.hintsOf o = GV.JsTokens.hintsOf its := by
+  intro its
+  induction its with
+  | nil => intro prev o h; simp [GV.JsTokens.rwItems] at h; subst h; exact ⟨fun _ h => h, rfl⟩
+  | cons it tl ih =>
+    intro prev o h
+    cases it with
+    | ws c =>
+      simp only [GV.JsTokens.rwItems] at h
+      split at h
+      · cases h
+      · obtain ⟨a, b⟩ := ih _ _ h
+        exact ⟨fun x hx => by simp [a x hx], by simp [GV.JsTokens.hintsOf, b]⟩
+      · cases hr : GV.JsTokens.rwItems c tl with
+        | none => simp [hr] at h
+        | some o' =>
+          simp [hr] at h; subst h
+          obtain ⟨a, b⟩ := ih _ _ hr
+          exact ⟨fun x hx => by
+            simp only [List.mem_cons] at hx ⊢
+            rcases hx with rfl | hx
+            · exact Or.inl rfl
+            · exact Or.inr (a x hx), by simp [GV.JsTokens.hintsOf, b]⟩
+    | comment body =>
+      simp only [GV.JsTokens.rwItems] at h
+      obtain ⟨a, b⟩ := ih _ _ h
+      exact ⟨fun x hx => by simp [a x hx], by simp [GV.JsTokens.hintsOf, b]⟩
+    | hint bs =>
+      simp only [GV.JsTokens.rwItems] at h
+      cases hr : GV.JsTokens.rwItems prev tl with
+      | none => simp [hr] at h
+      | some o' =>
+        simp [hr] at h; subst h
+        obtain ⟨a, b⟩ := ih _ _ hr
+        exact ⟨fun x hx => by
+          simp only [List.mem_cons] at hx ⊢
+          rcases hx with rfl | hx
+          · exact Or.inl rfl
+          · exact Or.inr (a x hx), by simp [GV.JsTokens.hintsOf, b]⟩
+    | str body =>
+      simp only [GV.JsTokens.rwItems] at h
+      cases hr : GV.JsTokens.rwItems 34 tl with
+      | none => simp [hr] at h
+      | some o' =>
+        simp [hr] at h; subst h
+        obtain ⟨a, b⟩ := ih _ _ hr
+        exact ⟨fun x hx => by
+          simp only [List.mem_cons] at hx ⊢
+          rcases hx with rfl | hx
+          · exact Or.inl rfl
+          · exact Or.inr (a x hx), by simp [GV.JsTokens.hintsOf, b]⟩
+    | ch y =>
+      simp only [GV.JsTokens.rwItems] at h
+      split at h
+      · cases h
+      · cases hr : GV.JsTokens.rwItems y tl with
+        | none => simp [hr] at h
+        | some o' =>
+          simp [hr] at h; subst h
+          obtain ⟨a, b⟩ := ih _ _ hr
+          exact ⟨fun x hx => by
+            simp only [List.mem_cons] at hx ⊢
+            rcases hx with rfl | hx
+            · exact Or.inl rfl
+            · exact Or.inr (a x hx), by simp [GV.JsTokens.hintsOf, b]⟩
+
+/-- `minify_keeps_mappings`: for every well-formed item sequence whose 0x08 bytes all belong to hints, whatever
+    `removeWhitespace` returns is filtered without panic and yields the same payload sequence — the same Go positions and
+    identifiers, in the same order — as the non-minified bytes. (That it does return something on well-formed generated
+    code is `GV.Props.C16.rw_total`.) -/
+theorem minify_keeps_mappings (its : List GV.JsTokens.Item) (hok : GV.JsTokens.itemsOK its = true)
+    (hb : ∀ it ∈ its, Bridge it) (o : Bytes) (ho : GV.Minify.removeWhitespace (GV.JsTokens.flatten its) true = some o) :
+    (write init o).err = none ∧
+    (write init o).maps.map (·.payload) = (write init (GV.JsTokens.flatten its)).maps.map (·.payload) := by
+  rw [GV.Props.C16.rw_items its hok] at ho
+  cases hr : GV.JsTokens.rwItems 0 its with
+  | none => simp [hr] at ho
+  | some its' =>
+    simp [hr] at ho
+    subst ho
+    obtain ⟨hsub, hh⟩ := rwItems_sub its 0 its' hr
+    have hb' : ∀ it ∈ its', Bridge it := fun it hit => hb it (hsub it hit)
+    obtain ⟨a1, a2, a3⟩ := render_toSrc its' hb'
+    obtain ⟨b1, b2, b3⟩ := render_toSrc its hb
+    rw [← a1, ← b1, write_render' _ a2, write_render' _ b2]
+    exact ⟨rfl, by simp only [a3, b3, hh]⟩
+
+/-! ### repaired defects (theorems about the code as it was before the round-2 repairs) -/
+
+/-- `defaultJSMappingCallback` before the repair C19-js-first-line-column: the test was `GeneratedLine == 0` -/
+def offsetJS_before_repair (st : St) (m : JSMapping) : JSMapping :=
+  let col := if m.genLine = 0 then m.genColumn + st.column else m.genColumn
+  { m with genLine := m.genLine + st.line, genColumn := col }
+
+/-- the old scheme left a first-line mapping of a JS text written at column 12 at its isolated column -/
+theorem offset_js_counterexample_before_repair :
+    ¬ ∀ (st : St) (m : JSMapping), 1 ≤ m.genLine → offsetJS_before_repair st m = offsetJSSpec st m := by
+  intro h
+  have := h ⟨1, 12⟩ ⟨1, 0, "helper.inc.js:1:0"⟩ (by decide)
+  revert this
+  decide
 
 end GV.Props.C19
